@@ -318,6 +318,19 @@ theorem modelled_nodes_isolated (items : List (Item Pt)) (g : GroupID) :
   ⟨fun _ => demux_noninterference_pure _ items g, fun _ => demux_noninterference_pure _ items g,
    fun _ _ => demux_noninterference_pure _ items g, demux_noninterference_pure _ items g⟩
 
+/-- … and the receivers transcribed from stateDuration, changeDetect, derivative, windowByCount and the alert node with
+threshold levels (stateChangesOnly or not): all their state lives in the per-group receiver, so each is isolated on
+every stream. (Floats occur only inside opaque per-group state; the theorem does not look at them.) -/
+theorem more_nodes_isolated (items : List (Item Pt)) (g : GroupID) :
+    (∀ t, (runNode (stateDurationNode t) () items).filter (fun o => o.1 == g) = runNode (stateDurationNode t) () (items.filter (fun it => it.group == g))) ∧
+    ((runNode changeDetectNode () items).filter (fun o => o.1 == g) = runNode changeDetectNode () (items.filter (fun it => it.group == g))) ∧
+    (∀ nn, (runNode (derivativeNode nn) () items).filter (fun o => o.1 == g) = runNode (derivativeNode nn) () (items.filter (fun it => it.group == g))) ∧
+    (∀ p e f, (runNode (windowCountNode p e f) () items).filter (fun o => o.1 == g) = runNode (windowCountNode p e f) () (items.filter (fun it => it.group == g))) ∧
+    (∀ thr sco, (runNode (alertThrNode thr sco) () items).filter (fun o => o.1 == g) = runNode (alertThrNode thr sco) () (items.filter (fun it => it.group == g))) :=
+  ⟨fun _ => demux_noninterference_pure _ items g, demux_noninterference_pure _ items g,
+   fun _ => demux_noninterference_pure _ items g, fun _ _ _ => demux_noninterference_pure _ items g,
+   fun _ _ => demux_noninterference_pure _ items g⟩
+
 /-- the recording receiver of the harness (the tie of `Demux.step` on all message types) is isolated too: on
 streams with barriers, buffered/unbuffered batches and deletions -/
 theorem recording_node_isolated (items : List (Item Nat)) (g : GroupID) :
@@ -336,6 +349,13 @@ example :
     let it (g : String) (t : Int) (v : Val) : Item Pt := .point g { name := "m", key := g, v := v, time := t }
     (runNode (iqlNode .sum) {} [it "A" 1 (.int 2), it "B" 1 (.str "u"), it "A" 1 (.int 3), it "B" 2 (.str "u"), it "A" 2 (.int 1)]).map (·.2.proj)
       = ["i:5"] := by decide
+
+example :
+    let mk (g : String) (t : Int) (v : Int) : Item Pt := .point g { name := "m", key := g, v := .int v, time := t }
+    let items := [mk "A" 1 9, mk "B" 1 0, mk "A" 2 9, mk "B" 2 3, mk "A" 3 0, mk "B" 3 9]
+    (runNode (windowCountNode 2 2 false) () items).map (fun o => (o.1, o.2.proj)) = [("A", "n:2/1/2"), ("B", "n:2/1/2")] ∧
+    ((runNode (alertThrNode (fun l => if l == 3 then some 5 else none) true) () items).filter (fun o => o.1 == "B")).map (·.2.proj) = ["s:CRITICAL"] := by
+  decide
 
 example :
     let items : List (Item Nat) := [.point "A" 0, .batch "B" 0 [0, 0] 0, .buffered "A" 2, .delete "B" 0, .barrier "B" 0, .delete "Z" 0]
